@@ -570,12 +570,29 @@ func ruleCheckErrorsPropagate(c *Ctx, rule string) {
 		if f == nil || !c.isRepoFn(f) || f.Signature.Results().Len() != 1 || !types.Identical(f.Signature.Results().At(0).Type(), tiT) {
 			return false
 		}
+		// a check function looks at a piece of the syntax tree; helpers that only rewrite the info they are given are not checks
+		hasInfo, hasNode := false, false
 		for i := 0; i < f.Signature.Params().Len(); i++ {
-			if types.Identical(f.Signature.Params().At(i).Type(), tiT) {
-				return true
+			pt := f.Signature.Params().At(i).Type()
+			if types.Identical(pt, tiT) {
+				hasInfo = true
+			}
+			for {
+				switch u := pt.(type) {
+				case *types.Pointer:
+					pt = u.Elem()
+					continue
+				case *types.Slice:
+					pt = u.Elem()
+					continue
+				}
+				break
+			}
+			if n, ok := pt.(*types.Named); ok && n.Obj().Pkg() != nil && n.Obj().Pkg().Name() == "ast" {
+				hasNode = true
 			}
 		}
-		return false
+		return hasInfo && hasNode
 	}
 	isErrConst := func(v ssa.Value) bool {
 		k, ok := v.(*ssa.Const)
